@@ -80,6 +80,14 @@ func c13Text(i int) string {
 	return "/l[k=1]"
 }
 
+// c13First: which first element a pool path starts with (0: a, 1: l[k=1])
+func c13First(i int) int {
+	if i == 4 || i == 5 || i == 7 {
+		return 1
+	}
+	return 0
+}
+
 func c13Writable(i int) bool  { return i == 0 || i == 1 || i == 4 || i == 5 }
 func c13Deletable(i int) bool { return i != 2 && i != 3 }
 
@@ -122,6 +130,12 @@ func VerifC13Set() {
 			Id: configapi.TargetVersionOverridesID, Msg: []byte{0xff}}}}}
 	}
 	nops := verifrt.Fork("nops", 3) // 0, 1 or 2 operations
+	// split = 1: the first element of every operation path travels in the request prefix ("the effective path is the
+	// prefix followed by the path"); all operations then share that first element
+	split := 0
+	if nops > 0 {
+		split = verifrt.Fork("prefix.elems", 2)
+	}
 	var opPath, opTgt [2]int
 	var opDel [2]bool
 	var opVal [2]string
@@ -132,6 +146,20 @@ func VerifC13Set() {
 		opTgt[k] = verifrt.NondetInt(tag + ".target")
 		verifrt.Assume(opTgt[k] >= 0 && opTgt[k] <= 3)
 		p := &gnmi.Path{Target: c13Target(opTgt[k]), Elem: c13Elems(opPath[k])}
+		if split == 1 {
+			// (an operation path with no elements of its own - the prefix node itself - is not generated: the server renders
+			// it as "<prefix>/" and refuses it, which the property does not speak about)
+			verifrt.Assume(opPath[k] != 6 && opPath[k] != 7)
+			if k == 0 {
+				if req.Prefix == nil {
+					req.Prefix = &gnmi.Path{}
+				}
+				req.Prefix.Elem = p.Elem[:1]
+			} else {
+				verifrt.Assume(c13First(opPath[k]) == c13First(opPath[0]))
+			}
+			p.Elem = p.Elem[1:]
+		}
 		if opDel[k] {
 			req.Delete = append(req.Delete, p)
 		} else {
